@@ -46,7 +46,7 @@ def produce_cases():
 
 
 def get_cases():
-    return cached_cases("c04cases", ["SMGStereo.tla", "SMGJson.tla",
+    return cached_cases("c04cases", ["SMGFigures.tla", "SMGGroups.tla", "SMGStereo.tla", "SMGJson.tla",
                                      "MC_StereoCases.tla", "MC_StereoCases.cfg"],
                         produce_cases)
 
